@@ -55,6 +55,10 @@ func positionStartGPOS(buffer *Buffer) {
 	}
 }
 
+// maxAttachmentNestingLevel is the depth at which propagateAttachmentOffsets stops following an
+// attachment chain (HB_MAX_NESTING_LEVEL upstream).
+const maxAttachmentNestingLevel = 64
+
 // advanceSums holds the running sums of the advances of a buffer :
 // sums[k] is the sum of the advances of pos[:k]
 type advanceSums []struct{ x, y Position }
@@ -70,7 +74,10 @@ func newAdvanceSums(pos []GlyphPosition) advanceSums {
 
 // [sums] must be the running sums of the advances of [pos] : they make the cost of one mark
 // attachment independent of its distance to the base (many marks on one base are otherwise quadratic)
-func propagateAttachmentOffsets(pos []GlyphPosition, sums advanceSums, i int, direction Direction) {
+//
+// [nestingLevel] is the number of attachment levels still followed (upstream:
+// nesting_level = HB_MAX_NESTING_LEVEL); beyond it the chain is cut, as upstream does.
+func propagateAttachmentOffsets(pos []GlyphPosition, sums advanceSums, i int, direction Direction, nestingLevel int) {
 	/* Adjusts offsets of attached glyphs (both cursive and mark) to accumulate
 	 * offset of glyph they are attached to. */
 	chain, type_ := pos[i].attachChain, pos[i].attachType
@@ -86,7 +93,11 @@ func propagateAttachmentOffsets(pos []GlyphPosition, sums advanceSums, i int, di
 		return
 	}
 
-	propagateAttachmentOffsets(pos, sums, j, direction)
+	if nestingLevel == 0 {
+		return
+	}
+
+	propagateAttachmentOffsets(pos, sums, j, direction, nestingLevel-1)
 
 	//   assert (!!(type_ & attachTypeMark) ^ !!(type_ & attachTypeCursive));
 
@@ -129,7 +140,7 @@ func positionFinishOffsetsGPOS(buffer *Buffer) {
 
 		sums := newAdvanceSums(pos) // the advances are not modified below
 		for i := range pos {
-			propagateAttachmentOffsets(pos, sums, i, direction)
+			propagateAttachmentOffsets(pos, sums, i, direction, maxAttachmentNestingLevel)
 		}
 	}
 }
